@@ -166,6 +166,116 @@ static void slot_program(hk_rng_t * r) {
   hk_sample("single-slot channels: %d producer/consumer pairs x %ld items, one variable per pair", pairs, n);
 }
 
+
+/* ---------------------------------------------------------- rotating waiters on ONE variable
+   K threads take turns as the (single) waiter of one variable; one signaler serves the turns
+   back to back.  Waiter of turn s may enter wait only after the signal of turn s-1 has
+   returned (one waiter at a time), but it announces first and dawdles (without yielding)
+   before it waits, so the signal for turn s is often early, and often issued while the waiter
+   of turn s-1 has been handed over but has not run yet. */
+#define ROT_MAXK 6
+typedef struct {
+  myth_uncond_t u;
+  _Atomic long flag;            /* turn announced as about to sleep, or 0 */
+  _Atomic long sig_done;        /* signals that have returned */
+  _Atomic long sig_seq;
+  long turns; int k;
+  _Atomic int * resumed;        /* per turn */
+  _Atomic uint64_t * stamp;     /* per turn: stamp taken right before its signal */
+} rot_t;
+static rot_t g_rot;
+static _Atomic long g_rot_turns, g_rot_early, g_rot_prev_not_resumed;
+
+static int rot_spin_until(_Atomic long * v, long want, const char * what, long turn) {
+  long spins = 0;
+  struct timespec t0; clock_gettime(CLOCK_MONOTONIC, &t0);
+  while (atomic_load(v) != want) {
+    myth_yield();
+    if ((++spins & 0xfffff) == 0) {
+      struct timespec t1; clock_gettime(CLOCK_MONOTONIC, &t1);
+      if (t1.tv_sec - t0.tv_sec > 120) { HK_FAIL("uncond:rotation-stuck", "turn %ld: %s not reached within 120 s", turn, what); return 0; }
+    }
+  }
+  return 1;
+}
+
+static void * rot_waiter(void * a_) {
+  hkm_targ_t * a = (hkm_targ_t *)a_;
+  rot_t * c = &g_rot;
+  hk_rng_t r; hk_rng_seed(&r, a->rseed, 33);
+  long s;
+  for (s = a->idx + 1; s <= c->turns; s += c->k) {
+    rot_spin_until(&c->sig_done, s - 1, "return of the previous turn's signal", s);
+    long z = 0;
+    int ok = atomic_compare_exchange_strong(&c->flag, &z, s);
+    HK_CHECK(ok, "uncond:harness", "rotation flag was %ld when announcing turn %ld", z, s);
+    if (hk_below(&r, 3)) hk_work((unsigned)hk_below(&r, 4000));     /* no yield between announce and wait */
+    int rc = myth_uncond_wait(&c->u);
+    uint64_t now = myth_verif_stamp();
+    HK_CHECK(rc == 0, "uncond:wait-rc", "wait returned %d", rc);
+    long ss = atomic_load(&c->sig_seq);
+    uint64_t st = atomic_load(&c->stamp[s]);
+    HK_CHECK(ss >= s && st != 0 && st < now, "uncond:resumed-without-signal",
+             "rotation: the waiter of turn %ld returned from wait at stamp %llu; its signal was called at stamp %llu (0 = not yet), the last signal called was for turn %ld",
+             s, (unsigned long long)now, (unsigned long long)st, ss);
+    int n = atomic_fetch_add(&c->resumed[s], 1) + 1;
+    HK_CHECK(n == 1, "uncond:resume-count", "rotation: the waiter of turn %ld returned from wait %d times", s, n);
+  }
+  return 0;
+}
+
+static void * rot_signaler(void * a_) {
+  hkm_targ_t * a = (hkm_targ_t *)a_;
+  rot_t * c = &g_rot;
+  hk_rng_t r; hk_rng_seed(&r, a->rseed, 34);
+  long s;
+  for (s = 1; s <= c->turns; s++) {
+    long spins = 0;
+    struct timespec t0; clock_gettime(CLOCK_MONOTONIC, &t0);
+    for (;;) {
+      long e = s;
+      if (atomic_compare_exchange_strong(&c->flag, &e, 0)) break;
+      HK_CHECK(e == 0, "uncond:harness", "rotation flag=%ld while expecting turn %ld", e, s);
+      myth_yield();
+      if ((++spins & 0xfffff) == 0) {
+        struct timespec t1; clock_gettime(CLOCK_MONOTONIC, &t1);
+        if (t1.tv_sec - t0.tv_sec > 120) { HK_FAIL("uncond:partner-never-announced", "rotation turn %ld: the waiter did not announce within 120 s", s); return 0; }
+      }
+    }
+    if (c->u.th == 0) atomic_fetch_add(&g_rot_early, 1);
+    if (s > 1 && atomic_load(&c->resumed[s - 1]) == 0) atomic_fetch_add(&g_rot_prev_not_resumed, 1);
+    atomic_store(&c->stamp[s], myth_verif_stamp());
+    atomic_store(&c->sig_seq, s);
+    int rc = myth_uncond_signal(&c->u);
+    HK_CHECK(rc == 0, "uncond:signal-rc", "signal returned %d", rc);
+    atomic_store(&c->sig_done, s);
+    atomic_fetch_add(&g_rot_turns, 1);
+    if (hk_below(&r, 8) == 0) hkm_jitter(&r, 300);
+  }
+  return 0;
+}
+static void * rot_thread(void * a_) { hkm_targ_t * a = (hkm_targ_t *)a_; return a->idx < g_rot.k ? rot_waiter(a_) : rot_signaler(a_); }
+
+static void rotation_program(hk_rng_t * r) {
+  rot_t * c = &g_rot;
+  memset(c, 0, sizeof(*c));
+  c->k = 2 + (int)hk_below(r, ROT_MAXK - 1);
+  c->turns = 150 + (long)hk_below(r, 800);
+  c->resumed = (_Atomic int *)calloc((size_t)c->turns + 2, sizeof(_Atomic int));
+  c->stamp = (_Atomic uint64_t *)calloc((size_t)c->turns + 2, sizeof(_Atomic uint64_t));
+  myth_uncond_init(&c->u);
+  hkm_targ_t args[ROT_MAXK + 1];
+  int i;
+  for (i = 0; i <= c->k; i++) { args[i].idx = i; args[i].rseed = hk_rand(r); args[i].user = 0; }
+  hkm_run_threads(c->k + 1, rot_thread, args, 0);
+  long s;
+  for (s = 1; s <= c->turns; s++)
+    HK_CHECK(atomic_load(&c->resumed[s]) == 1, "uncond:resume-count", "rotation: the waiter of turn %ld returned from wait %d times", s, atomic_load(&c->resumed[s]));
+  HK_CHECK(c->u.th == 0, "uncond:waiter-left-published", "rotation: variable still names a waiter after the last turn");
+  hk_sample("rotation: %d threads take turns as the waiter of one variable, %ld turns served back to back by one signaler", c->k, c->turns);
+  free((void *)c->resumed); free((void *)c->stamp);
+}
+
 int main(int argc, char ** argv) {
   hk_init(argc, argv);
   uint64_t seed = hk_seed();
@@ -174,12 +284,16 @@ int main(int argc, char ** argv) {
   int p;
   for (p = 0; p < progs; p++) {
     hk_rng_t r; hk_rng_seed(&r, seed, (uint64_t)p);
-    if (hk_below(&r, 3) == 0) slot_program(&r); else pingpong_program(&r);
+    unsigned which = (unsigned)hk_below(&r, 4);
+    if (which == 0) slot_program(&r); else if (which == 1) rotation_program(&r); else pingpong_program(&r);
   }
   hk_report("programs", progs);
   hk_report("rendezvous", atomic_load(&g_rendezvous));
   hk_report("signals_issued_before_waiter_published", atomic_load(&g_early_signal_possible));
   hk_report("slot_items", atomic_load(&g_items));
+  hk_report("rotation_turns", atomic_load(&g_rot_turns));
+  hk_report("rotation_signals_before_waiter_published", atomic_load(&g_rot_early));
+  hk_report("rotation_signals_with_previous_waiter_not_resumed", atomic_load(&g_rot_prev_not_resumed));
   hk_report("workers", myth_get_num_workers());
   return hk_finish();
 }
